@@ -237,7 +237,7 @@ func invariants(e *env, s *snap, st map[common.Address]acct, head *types.Header,
 			idOwner[m.ID] = m.Hash
 			sum.Add(sum, m.CostCap)
 			stored += uint64(m.StorageSize)
-			if sl, ok := slotOf[m.ID]; ok && s.Store != nil && sl != m.StorageSize {
+			if sl, ok := slotOf[m.ID]; ok && s.StoresLevel > 0 && sl != m.StorageSize {
 				add("index:storage-size", "tx %x: storageSize %d, slot on disk %d", m.Hash[:4], m.StorageSize, sl)
 			}
 			// eviction thresholds: running minima along the nonce chain
@@ -350,7 +350,7 @@ func invariants(e *env, s *snap, st map[common.Address]acct, head *types.Header,
 		}
 	}
 	// store vs index
-	if s.Store != nil {
+	if s.StoresLevel > 0 {
 		onDisk := map[uint64]bool{}
 		for _, en := range s.Store {
 			onDisk[en.ID] = true
@@ -369,6 +369,12 @@ func invariants(e *env, s *snap, st map[common.Address]acct, head *types.Header,
 			if !onDisk[id] {
 				add("store:orphan-index", "indexed tx %x (id %d) has no billy entry", hash[:4], id)
 			}
+		}
+		if s.StoreFilled != uint64(len(idOwner)) {
+			add("store:ghost", "queue store has %d filled slots, the index has %d transactions", s.StoreFilled, len(idOwner))
+		}
+		if s.LimboFilled != uint64(len(s.LimboIndex)) {
+			add("limbo:ghost", "limbo store has %d filled slots, the limbo index has %d entries", s.LimboFilled, len(s.LimboIndex))
 		}
 		// limbo: index <-> groups <-> store
 		lids := map[uint64]common.Hash{}
@@ -438,7 +444,12 @@ type opInfo struct {
 
 func (h *hist) check(op string, pre *snap) *snap {
 	r := h.r
-	s := h.pool.VerifSnapshot(true)
+	level := 1
+	if op == "reopen" || op == "init" || h.opNo%8 == 0 {
+		level = 2 // physical walk of both stores
+		r.Count("store_walks", 1)
+	}
+	s := h.pool.VerifSnapshot(level)
 	hd := h.ch.headBlk()
 	r.Count("snapshots_checked", 1)
 	if s.Head == nil || s.Head.Hash() != hd.header.Hash() {
@@ -931,7 +942,7 @@ func reopenAndCheck(r *vrt.Run, dir, ackPath string, lines int, exact bool) reop
 		return res
 	}
 	defer pool.Close()
-	s := pool.VerifSnapshot(true)
+	s := pool.VerifSnapshot(2)
 	name := func(a common.Address) string { return fmt.Sprintf("%x", a[:4]) }
 	for _, f := range invariants(e, s, ch.headBlk().state, ch.headBlk().header, name) {
 		res.Violations = append(res.Violations, f)
